@@ -359,8 +359,18 @@ def _as_container(a, container):
 
 
 def _arr(vals, shape=None, dtype=float):
-    a = np.array([float(Fraction(v)) for v in vals], dtype=dtype)
+    if isinstance(vals, np.ndarray):
+        a = np.array(vals, dtype=dtype)  # procedurally generated (large) builds: always a fresh copy
+    else:
+        a = np.array([float(Fraction(v)) for v in vals], dtype=dtype)
     return a.reshape(shape) if shape is not None else a
+
+
+def _pairs(vals):
+    """(n, 2) float array from a list of ["p/q", "p/q"] pairs (or a fresh copy of an ndarray)."""
+    if isinstance(vals, np.ndarray):
+        return np.array(vals, dtype=float).reshape(-1, 2)
+    return np.array([[float(Fraction(a)), float(Fraction(c))] for a, c in vals], dtype=float).reshape(-1, 2)
 
 
 class Graph:
@@ -398,37 +408,239 @@ class StopBuild(Exception):
     pass
 
 
+# --------------------------------------------------------------------------------------------------
+# procedurally generated (large) builds: the case stores only the recipe `b["proc"]`; the arrays are
+# regenerated deterministically from it, so replays stay small and self-contained (round 4, L1)
+# --------------------------------------------------------------------------------------------------
+_EXPANDED = {}
+
+
+def proc_mask(h, w, n_un, my=1, mx=1, holes=0, seed=0):
+    """(h, w) boolean mask (True = masked) with exactly `n_un` unmasked pixels: the interior (margins my, mx)
+    is filled row by row, so the last row is partial; `holes` interior pixels of the region are masked and the
+    same number unmasked at the end of the fill (holes inside the region, count unchanged)."""
+    m = np.ones((h, w), dtype=bool)
+    hi, wi = h - 2 * my, w - 2 * mx
+    n_un = min(n_un, hi * wi)
+    flat = np.ones(hi * wi, dtype=bool)
+    flat[:n_un] = False
+    if holes and n_un + holes <= hi * wi and n_un > 4 * holes:
+        rs = np.random.RandomState(seed)
+        idx = rs.choice(np.arange(1, n_un - 1), size=holes, replace=False)
+        flat[idx] = True
+        flat[n_un:n_un + holes] = False
+    m[my:h - my, mx:w - mx] = flat.reshape(hi, wi)
+    return m
+
+
+def frame_for(n_un, my=1, mx=1, skew=3):
+    """a non-square frame whose interior holds n_un pixels with a partial last row."""
+    import math
+    wi = max(1, int(math.isqrt(max(n_un, 1))) + skew)
+    hi = max(1, -(-n_un // wi))
+    return hi + 2 * my, wi + 2 * mx
+
+
+def _mask_json_np(m):
+    return {"h": int(m.shape[0]), "w": int(m.shape[1]), "bits": "".join("1" if v else "0" for v in m.ravel())}
+
+
+def _dyadic_np(rs, n, lo, hi, bits=2):
+    d = 1 << bits
+    return rs.randint(lo * d, hi * d + 1, size=n).astype(float) / d
+
+
+def expand_build(b):
+    """the full build spec of a procedural recipe (identity for ordinary builds)."""
+    if b.get("graph") == "twoworld":
+        ws = [expand_build(x) for x in b["worlds"]]
+        if all(x is y for x, y in zip(ws, b["worlds"])):
+            return b
+        return {**b, "worlds": ws}
+    p = b.get("proc")
+    if not p:
+        return b
+    key = hashlib.sha1(json.dumps(b, sort_keys=True).encode()).hexdigest()
+    if key in _EXPANDED:
+        return _EXPANDED[key]
+    rs = np.random.RandomState(p["seed"])
+    out = dict(b)
+    out["_proc"] = out.pop("proc")  # expanded: not expanded again
+    if b["graph"] == "visibilities":
+        n = p["n"]
+        out["values"] = np.stack([_dyadic_np(rs, n, -8, 8), _dyadic_np(rs, n, -8, 8)], axis=-1)
+    elif b["graph"] == "rng":
+        h, w = b["shape"]
+        out["image"] = _dyadic_np(rs, h * w, 1, 8)
+    else:
+        h, w = p["h"], p["w"]
+        my, mx = p.get("margin", [1, 1])
+        if p.get("all_unmasked"):
+            m = np.zeros((h, w), dtype=bool)
+        else:
+            m = proc_mask(h, w, p["n_un"], my, mx, holes=p.get("holes", 0), seed=p["seed"])
+        n_un = int((~m).sum())
+        out["mask"] = _mask_json_np(m)
+        subs = []
+        for frac in (2, 3):
+            sm = m.copy()
+            un = np.flatnonzero(~m.ravel())
+            drop = un[rs.rand(len(un)) < 1.0 / frac]
+            if 0 < len(drop) < len(un):
+                sm.ravel()[drop] = True
+            subs.append(_mask_json_np(sm))
+        out["submasks"] = subs
+        if b["graph"] == "structure":
+            st = b["struct"]
+            n = h * w if b["form"] == "native" else n_un
+            if st in ("Array2D", "Kernel2D"):
+                v = _dyadic_np(rs, n, -8, 8)
+                if st == "Kernel2D":
+                    v = np.abs(v) + 0.25
+                out["values"] = v
+            elif st != "Mask2D":
+                if st == "Grid2D" and p.get("uniform"):
+                    sy, sx = (float(Fraction(s)) for s in b["scales"])
+                    oy, ox = (float(Fraction(s)) for s in b["origin"])
+                    ys, xs = np.nonzero(np.ones_like(m) if b["form"] == "native" else ~m)
+                    out["values"] = np.stack([-(ys - (h - 1) / 2) * sy + oy, (xs - (w - 1) / 2) * sx + ox], axis=-1)
+                else:
+                    out["values"] = np.stack([_dyadic_np(rs, n, -8, 8), _dyadic_np(rs, n, -8, 8)], axis=-1)
+                if st == "VectorYX2D":
+                    out["grid_values"] = np.stack([_dyadic_np(rs, n, -8, 8), _dyadic_np(rs, n, -8, 8)], axis=-1)
+        else:
+            out["data"] = _dyadic_np(rs, h * w, -2, 8)
+            out["noise"] = _dyadic_np(rs, h * w, 1, 4)
+            kh, kw = b["psf_shape"]
+            out["psf"] = _dyadic_np(rs, kh * kw, 0, 4) + 0.25
+            if p.get("psf_signed"):
+                out["psf"][:: 3] *= -1.0
+                out["psf"][(kh * kw) // 2] = 8.0
+            out["model"] = _dyadic_np(rs, n_un, -2, 8)
+            if b["graph"] == "inversion":
+                maps = []
+                for ms in b["mappers"]:
+                    ms = dict(ms)
+                    if ms["mesh"] == "delaunay" and "n_points" in ms:
+                        # distinct points in general position: a jittered lattice over the source region
+                        k = ms["n_points"]
+                        side = int(np.ceil(np.sqrt(k)))
+                        gy, gx = np.divmod(np.arange(k), side)
+                        ext = float(p.get("extent", max(h, w)))
+                        pts = np.stack([(gy + 0.5) / side - 0.5, (gx + 0.5) / side - 0.5], axis=-1) * ext
+                        pts += (rs.randint(-8, 9, size=pts.shape) / 64.0) * (ext / side)
+                        ms["points"] = pts
+                    maps.append(ms)
+                out["mappers"] = maps
+                mv = b.get("valued")
+                if mv and isinstance(mv.get("values"), dict):
+                    mv = dict(mv)
+                    npix = mv["values"]["n"]
+                    vals = _dyadic_np(rs, npix, 0, 8) + 0.25
+                    if mv.get("pixel_mask") and mv["values"].get("zero_under_mask", True):
+                        pm = np.array([c == "1" for c in mv["pixel_mask"]])
+                        vals[: len(pm)][pm[: len(vals)]] = 0.0
+                    mv["values"] = vals
+                    out["valued"] = mv
+    if len(_EXPANDED) > 64:
+        _EXPANDED.clear()
+    _EXPANDED[key] = out
+    return out
+
+
+def n_params_of(ms):
+    if ms["mesh"] == "rect":
+        return ms["shape"][0] * ms["shape"][1]
+    return ms["n_points"] if "n_points" in ms else len(ms["points"])
+
+
+def world_of(b, root):
+    """(world build, first pool index of that world) of the pool root `root` (two-world graphs)."""
+    if b.get("graph") != "twoworld":
+        return b, 0
+    n1 = len(root_kinds(b["worlds"][0]))
+    return (b["worlds"][0], 0) if root < n1 else (b["worlds"][1], n1)
+
+
 def build_graph(b, upto=None, track=True) -> Graph:
     """deterministic builder: equal spec -> equal (fresh) object graph.  `upto` = build only the stages
-    needed for pool[upto]."""
-    aa = load_autoarray()
+    needed for pool[upto].  A two-world graph builds two worlds one after the other into one pool, handing
+    the helper objects named in `b["share"]` (configuration objects, regularization, mask, PSF object …) of the
+    first world to the second; with `upto` only the world of that object is built, standalone (its own helpers):
+    the fresh-object expectation of a quantity never involves the other world."""
+    b = expand_build(b)
     g = Graph(track=track)
+    if b["graph"] == "twoworld":
+        w1, w2 = b["worlds"]
+        n1 = len(root_kinds(w1))
+        if upto is None:
+            shared = {"__share__": set(b.get("share", []))}
+            _build_world(g, w1, None, shared, "")
+            if len(g.pool) != n1:
+                raise ValueError("two-world graph: first world incomplete")
+            _build_world(g, w2, None, shared, "w2:")
+        elif upto < n1:
+            _build_world(g, w1, upto, None, "")
+        else:
+            g.pool, g.kinds, g.parents = [None] * n1, ["Pad"] * n1, [[] for _ in range(n1)]
+            _build_world(g, w2, upto - n1, None, "w2:")
+        return g
+    _build_world(g, b, upto, None, "")
+    return g
+
+
+def _build_world(g, b, upto, shared, tag):
+    aa = load_autoarray()
+    base = len(g.pool)
 
     def done():
-        return upto is not None and len(g.pool) > upto
+        return upto is not None and len(g.pool) - base > upto
+
+    def P(*idx):
+        return [base + i for i in idx]
+
+    def sh(name, factory):
+        """a helper object: the first world's instance when the two-world graph shares `name`."""
+        if shared is None or name not in shared["__share__"]:
+            return factory()
+        if name not in shared:
+            shared[name] = factory()
+        return shared[name]
+
+    ro = set(b.get("readonly", ()))
+
+    def inp(role, arr):
+        # a caller-owned buffer; handed over read-only when the build says so (memory-mapped / broadcast /
+        # exported arrays): any in-place write of the library then raises in the middle of an operation
+        if role in ro and isinstance(arr, np.ndarray):
+            arr.flags.writeable = False
+        return g.add_input(tag + role, arr)
 
     kind = b["graph"]
     scales = tuple(float(Fraction(s)) for s in b.get("scales", ["1", "1"]))
     origin = tuple(float(Fraction(s)) for s in b.get("origin", ["0", "0"]))
     try:
         if kind == "visibilities":
-            vals = np.array([complex(float(Fraction(a)), float(Fraction(c))) for a, c in b["values"]])
-            g.add_input("values", vals)
+            pr = _pairs(b["values"])
+            vals = np.empty(len(pr), dtype=complex)
+            vals.real, vals.imag = pr[:, 0], pr[:, 1]
+            inp("values", vals)
             g.stage("Buffer", [], lambda: vals)
             if done():
                 raise StopBuild
-            g.stage("Visibilities", [0], lambda: aa.Visibilities(visibilities=vals))
+            g.stage("Visibilities", P(0), lambda: aa.Visibilities(visibilities=vals))
             raise StopBuild
         m = mask_from_json(b["mask"])
         h, w = m.shape
-        g.add_input("mask", m)
+        inp("mask", m)
         g.stage("Buffer", [], lambda: m)                                            # 0
         if done():
             raise StopBuild
         if kind == "structure" and b["struct"] == "Mask2D":
-            g.stage("Mask2D", [0], lambda: aa.Mask2D(mask=m, pixel_scales=scales, origin=origin))
+            g.stage("Mask2D", P(0), lambda: aa.Mask2D(mask=m, pixel_scales=scales, origin=origin))
             raise StopBuild
-        mask = g.stage("Mask2D", [0], lambda: aa.Mask2D(mask=m, pixel_scales=scales, origin=origin))  # 1
+        mask = g.stage("Mask2D", P(0), lambda: sh("mask", lambda: aa.Mask2D(
+            mask=m, pixel_scales=scales, origin=origin)))                            # 1
         if done():
             raise StopBuild
         if kind == "structure":
@@ -438,54 +650,54 @@ def build_graph(b, upto=None, track=True) -> Graph:
             if st in ("Array2D", "Kernel2D"):
                 vals = _arr(b["values"], (h, w) if form == "native" else None)
             else:
-                vals = np.array([[float(Fraction(a)), float(Fraction(c))] for a, c in b["values"]],
-                                dtype=float).reshape(-1, 2)
+                vals = _pairs(b["values"])
                 if form == "native":
                     vals = vals.reshape(h, w, 2)
             vals = _as_container(vals, b.get("container", "ndarray"))
             use_no_mask = b.get("ctor") == "no_mask"
-            g.add_input("values", vals)
+            inp("values", vals)
             g.stage("Buffer", [], lambda: vals)                                      # 2
             if done():
                 raise StopBuild
             if st == "Array2D" and use_no_mask:
                 # alternative constructor of the same functionality (the mask is all-unmasked)
-                g.stage("Array2D", [1, 2], lambda: aa.Array2D.no_mask(values=vals, pixel_scales=scales,
-                                                                       shape_native=(h, w), origin=origin))
+                g.stage("Array2D", P(1, 2), lambda: aa.Array2D.no_mask(values=vals, pixel_scales=scales,
+                                                                        shape_native=(h, w), origin=origin))
             elif st == "Array2D":
-                g.stage("Array2D", [1, 2], lambda: aa.Array2D(values=vals, mask=mask, store_native=sn))
+                g.stage("Array2D", P(1, 2), lambda: aa.Array2D(values=vals, mask=mask, store_native=sn))
             elif st == "Kernel2D" and use_no_mask:
-                g.stage("Kernel2D", [1, 2], lambda: aa.Kernel2D.no_mask(values=vals, pixel_scales=scales,
-                                                                         shape_native=(h, w), origin=origin,
-                                                                         normalize=b.get("normalize", False)))
+                g.stage("Kernel2D", P(1, 2), lambda: aa.Kernel2D.no_mask(values=vals, pixel_scales=scales,
+                                                                          shape_native=(h, w), origin=origin,
+                                                                          normalize=b.get("normalize", False)))
             elif st == "Kernel2D":
-                g.stage("Kernel2D", [1, 2], lambda: aa.Kernel2D(values=vals, mask=mask, store_native=sn,
-                                                                 normalize=b.get("normalize", False)))
+                g.stage("Kernel2D", P(1, 2), lambda: aa.Kernel2D(values=vals, mask=mask, store_native=sn,
+                                                                  normalize=b.get("normalize", False)))
             elif st == "Grid2D" and use_no_mask:
-                ov = aa.OverSamplingUniform(sub_size=b.get("sub", 1)) if b.get("sub") else None
-                g.stage("Grid2D", [1, 2], lambda: aa.Grid2D.no_mask(values=vals, pixel_scales=scales,
-                                                                     shape_native=(h, w), origin=origin,
-                                                                     over_sampling=ov))
+                ov = sh("over_sampling", lambda: aa.OverSamplingUniform(sub_size=b.get("sub", 1))) \
+                    if b.get("sub") else None
+                g.stage("Grid2D", P(1, 2), lambda: aa.Grid2D.no_mask(values=vals, pixel_scales=scales,
+                                                                      shape_native=(h, w), origin=origin,
+                                                                      over_sampling=ov))
             elif st == "Grid2D":
-                ov = aa.OverSamplingUniform(sub_size=b.get("sub", 1)) if b.get("sub") else None
-                g.stage("Grid2D", [1, 2], lambda: aa.Grid2D(values=vals, mask=mask, store_native=sn,
-                                                             over_sampling=ov))
+                ov = sh("over_sampling", lambda: aa.OverSamplingUniform(sub_size=b.get("sub", 1))) \
+                    if b.get("sub") else None
+                g.stage("Grid2D", P(1, 2), lambda: aa.Grid2D(values=vals, mask=mask, store_native=sn,
+                                                              over_sampling=ov))
             elif st == "VectorYX2D":
-                gv = np.array([[float(Fraction(a)), float(Fraction(c))] for a, c in b["grid_values"]],
-                              dtype=float).reshape(-1, 2)
+                gv = _pairs(b["grid_values"])
                 if form == "native":
                     gv = gv.reshape(h, w, 2)
-                g.add_input("grid_values", gv)
-                g.stage("VectorYX2D", [1, 2], lambda: aa.VectorYX2D(values=vals, grid=gv, mask=mask,
-                                                                     store_native=sn))
+                inp("grid_values", gv)
+                g.stage("VectorYX2D", P(1, 2), lambda: aa.VectorYX2D(values=vals, grid=gv, mask=mask,
+                                                                      store_native=sn))
             else:
                 raise ValueError(st)
             raise StopBuild
         # ---------------------------------------------------------------- dataset / inversion graphs
-        data_n = g.add_input("data", _as_container(_arr(b["data"], (h, w)), b.get("container", "ndarray")))
-        noise_n = g.add_input("noise", _arr(b["noise"], (h, w)))
+        data_n = inp("data", _as_container(_arr(b["data"], (h, w)), b.get("container", "ndarray")))
+        noise_n = inp("noise", _arr(b["noise"], (h, w)))
         kh, kw = b["psf_shape"]
-        psf_n = g.add_input("psf", _arr(b["psf"], (kh, kw)))
+        psf_n = inp("psf", _arr(b["psf"], (kh, kw)))
         g.stage("Buffer", [], lambda: data_n)                                        # 2
         if done():
             raise StopBuild
@@ -502,39 +714,43 @@ def build_graph(b, upto=None, track=True) -> Graph:
                 return aa.Array2D(values=vals_n, mask=mk0, store_native=True)
             return aa.Array2D.no_mask(values=vals_n, pixel_scales=scales, origin=origin)
 
-        data = g.stage("Array2D", [2], lambda: mk_arr(data_n))  # 5
+        data = g.stage("Array2D", P(2), lambda: mk_arr(data_n))  # 5
         if done():
             raise StopBuild
-        noise = g.stage("Array2D", [3], lambda: mk_arr(noise_n))  # 6
+        noise = g.stage("Array2D", P(3), lambda: mk_arr(noise_n))  # 6
         if done():
             raise StopBuild
-        psf = g.stage("Kernel2D", [4], lambda: aa.Kernel2D.no_mask(values=psf_n, pixel_scales=scales))  # 7
+        # (a shared PSF object: the second world's dataset is given the first world's Kernel2D instance)
+        psf = g.stage("Kernel2D", P(4), lambda: sh("psf", lambda: aa.Kernel2D.no_mask(
+            values=psf_n, pixel_scales=scales)))                                     # 7
         if done():
             raise StopBuild
         sub = b.get("sub", 1)
-        ovs_ds = aa.OverSamplingDataset(uniform=aa.OverSamplingUniform(sub_size=sub),
-                                        pixelization=aa.OverSamplingUniform(sub_size=b.get("sub_pix", 1)))
-        ds0 = g.stage("Imaging", [5, 6, 7], lambda: aa.Imaging(
+        ovs_ds = sh("over_sampling_dataset", lambda: aa.OverSamplingDataset(
+            uniform=sh("over_sampling", lambda: aa.OverSamplingUniform(sub_size=sub)),
+            pixelization=sh("over_sampling_pix", lambda: aa.OverSamplingUniform(sub_size=b.get("sub_pix", 1)))))
+        ds0 = g.stage("Imaging", P(5, 6, 7), lambda: aa.Imaging(
             data=data, noise_map=noise, psf=psf, over_sampling=ovs_ds,
             use_normalized_psf=b.get("normalize_psf", True)))                        # 8
         if done():
             raise StopBuild
-        ds = g.stage("Imaging", [8, 1], lambda: ds0.apply_mask(mask=mask))           # 9
+        ds = g.stage("Imaging", P(8, 1), lambda: ds0.apply_mask(mask=mask))          # 9
         if done():
             raise StopBuild
-        md = g.add_input("model_data", _arr(b["model"], None))
+        md = inp("model_data", _arr(b["model"], None))
         g.stage("Buffer", [], lambda: md)                                            # 10
         if done():
             raise StopBuild
         model_data = aa.Array2D(values=md, mask=mask)
         fit_cls = _fit_class(aa)
-        g.stage("FitImaging", [9, 10], lambda: fit_cls(dataset=ds, model_data=model_data,
-                                                        use_mask_in_fit=b.get("use_mask_in_fit", False)))  # 11
+        g.stage("FitImaging", P(9, 10), lambda: fit_cls(dataset=ds, model_data=model_data,
+                                                         use_mask_in_fit=b.get("use_mask_in_fit", False)))  # 11
         if done() or kind == "dataset":
             raise StopBuild
         # ---------------------------------------------------------------- inversion
         sub_pix = b.get("sub_pix", 1)
-        ovs = g.stage("OverSampler", [1], lambda: aa.OverSamplerUniform(mask=mask, sub_size=sub_pix))  # 12
+        ovs = g.stage("OverSampler", P(1), lambda: sh("over_sampler", lambda: aa.OverSamplerUniform(
+            mask=mask, sub_size=sub_pix)))                                           # 12
         if done():
             raise StopBuild
         # source-plane grid: the over-sampled image grid pushed through a fixed smooth distortion
@@ -545,47 +761,57 @@ def build_graph(b, upto=None, track=True) -> Graph:
             out = np.stack([a11 * gr[:, 0] + a12 * gr[:, 1], a21 * gr[:, 0] + a22 * gr[:, 1]], axis=-1)
             return aa.Grid2DIrregular(values=out)
 
-        sgrid = g.stage("Grid2DIrregular", [12], mk_grid)                            # 13
+        sgrid = g.stage("Grid2DIrregular", P(12), mk_grid)                           # 13
         if done():
             raise StopBuild
         mappers = []
+        mapper_idx = []
         for mi, ms in enumerate(b["mappers"]):
             def mk_mesh(ms=ms):
                 if ms["mesh"] == "rect":
                     return aa.Mesh2DRectangular.overlay_grid(grid=sgrid, shape_native=tuple(ms["shape"]))
-                pts = np.array([[float(Fraction(a)), float(Fraction(c))] for a, c in ms["points"]])
-                return aa.Mesh2DDelaunay(values=pts)
+                return aa.Mesh2DDelaunay(values=_pairs(ms["points"]))
 
-            mesh = g.stage("Mesh", [13], mk_mesh)
+            mesh = g.stage("Mesh", P(13), mk_mesh)
             if done():
                 raise StopBuild
             mesh_idx = len(g.pool) - 1
 
-            def mk_mapper(ms=ms, mesh=mesh):
+            def mk_reg(ms=ms):
+                if ms.get("reg") == "constant":
+                    return aa.reg.Constant(coefficient=float(Fraction(ms.get("coeff", "1"))))
+                if ms.get("reg") == "zeroth":
+                    return aa.reg.ConstantZeroth(coefficient_neighbor=float(Fraction(ms.get("coeff", "1"))),
+                                                 coefficient_zeroth=0.5)
+                return None
+
+            def mk_mapper(ms=ms, mesh=mesh, mi=mi):
                 mg = aa.MapperGrids(mask=mask, source_plane_data_grid=sgrid, source_plane_mesh_grid=mesh,
                                     image_plane_mesh_grid=None, adapt_data=None)
-                reg = None
-                if ms.get("reg") == "constant":
-                    reg = aa.reg.Constant(coefficient=float(Fraction(ms.get("coeff", "1"))))
-                elif ms.get("reg") == "zeroth":
-                    reg = aa.reg.ConstantZeroth(coefficient_neighbor=float(Fraction(ms.get("coeff", "1"))),
-                                                coefficient_zeroth=0.5)
+                # (a shared regularization instance: only when both worlds ask for the same scheme / coefficient)
+                reg = sh(f"regularization{mi}:{ms.get('reg')}:{ms.get('coeff', '1')}", lambda: mk_reg(ms)) \
+                    if shared is not None and "regularization" in shared["__share__"] else mk_reg(ms)
                 cls = aa.MapperRectangular if ms["mesh"] == "rect" else aa.MapperDelaunay
                 return cls(mapper_grids=mg, over_sampler=ovs, border_relocator=None, regularization=reg)
 
-            mappers.append(g.stage("Mapper", [1, 13, mesh_idx, 12], mk_mapper))
+            mappers.append(g.stage("Mapper", [base + 1, base + 13, mesh_idx, base + 12], mk_mapper))
+            mapper_idx.append(len(g.pool) - 1)
             if done():
                 raise StopBuild
-        mapper_idx = [i for i, k in enumerate(g.kinds) if k == "Mapper"]
-        settings = aa.SettingsInversion(use_w_tilde=b.get("w_tilde", False),
-                                        use_positive_only_solver=b.get("positive_only", False),
-                                        no_regularization_add_to_curvature_diag_value=1.0)
-        inv = g.stage("Inversion", [9] + mapper_idx, lambda: aa.Inversion(
-            dataset=ds, linear_obj_list=list(mappers), settings=settings))
+        settings = sh("settings", lambda: aa.SettingsInversion(
+            use_w_tilde=b.get("w_tilde", False), use_positive_only_solver=b.get("positive_only", False),
+            no_regularization_add_to_curvature_diag_value=1.0))
+        if b.get("preloads") or (shared is not None and "preloads" in shared["__share__"]):
+            # an explicit (empty) Preloads instance, possibly one instance for both worlds
+            pre = sh("preloads", lambda: aa.Preloads())
+            mk_inv = lambda: aa.Inversion(dataset=ds, linear_obj_list=list(mappers), settings=settings, preloads=pre)
+        else:
+            mk_inv = lambda: aa.Inversion(dataset=ds, linear_obj_list=list(mappers), settings=settings)
+        inv = g.stage("Inversion", [base + 9] + mapper_idx, mk_inv)
         if done():
             raise StopBuild
         inv_idx = len(g.pool) - 1
-        g.stage("FitInversion", [9, inv_idx], lambda: fit_cls(
+        g.stage("FitInversion", [base + 9, inv_idx], lambda: fit_cls(
             dataset=ds, model_data=None, inversion=inv, use_mask_in_fit=b.get("use_mask_in_fit", False)))
         if done():
             raise StopBuild
@@ -593,9 +819,9 @@ def build_graph(b, upto=None, track=True) -> Graph:
         if mv:
             pm = np.array([c == "1" for c in mv["pixel_mask"]], dtype=bool) if mv.get("pixel_mask") else None
             if pm is not None:
-                g.add_input("mesh_pixel_mask", pm)
+                inp("mesh_pixel_mask", pm)
             mv_kind = mv_kind_of(mv)
-            if mv["values"] == "reconstruction":
+            if isinstance(mv["values"], str) and mv["values"] == "reconstruction":
                 def mk_mv():
                     # the usual use: the valued mapper is handed the inversion's (cached) reconstruction
                     try:
@@ -608,7 +834,12 @@ def build_graph(b, upto=None, track=True) -> Graph:
 
                 g.stage(mv_kind, [mapper_idx[0], inv_idx], mk_mv)
             else:
-                vals = g.add_input("mv_values", _arr(mv["values"], None))
+                vals_a = _arr(mv["values"], None)
+                if mv.get("len_delta", 0) > 0:    # values of the wrong length: queries fail in the middle
+                    vals_a = np.concatenate([vals_a, np.full(mv["len_delta"], 1.5)])
+                elif mv.get("len_delta", 0) < 0:
+                    vals_a = vals_a[: mv["len_delta"]]
+                vals = inp("mv_values", vals_a)
                 g.stage("Buffer", [], lambda: vals)
                 if done():
                     raise StopBuild
@@ -625,7 +856,11 @@ def mv_kind_of(mv):
     buffer or the inversion's cached reconstruction (known finding D9b)."""
     if not mv.get("pixel_mask"):
         return "MapperValued"
-    return "MapperValuedMaskedRec" if mv["values"] == "reconstruction" else "MapperValuedMaskedBuf"
+    return "MapperValuedMaskedRec" if mv_from_rec(mv) else "MapperValuedMaskedBuf"
+
+
+def mv_from_rec(mv):
+    return isinstance(mv.get("values"), str) and mv["values"] == "reconstruction"
 
 
 _FIT = None
@@ -697,11 +932,17 @@ def do_query(obj, kind, name, arg, build, track=None):
         return obj.squared_distances_to_coordinate_from(coordinate=(y, x))
     if name == "extent_with_buffer_from":
         return obj.extent_with_buffer_from(buffer=float(Fraction(arg)))
+    if name == "convolved_array_from" and arg == "bad_native":
+        # an image whose native form is not 2D: the convolution raises half-way
+        class _Native:
+            def __init__(self, a):
+                self.native = a
+        return obj.convolved_array_from(array=_Native(own("image", np.arange(1.0, 7.0))))
     if name == "convolved_array_from":
         # obj: Kernel2D; convolve the build's data image (fresh caller array)
         h, w = build["mask"]["h"], build["mask"]["w"]
-        src = build.get("data") or build.get("image")
-        vals = own("image", _arr(src, (h, w)) if src else np.arange(1.0, h * w + 1.0).reshape(h, w))
+        src = build.get("data") if build.get("data") is not None else build.get("image")
+        vals = own("image", _arr(src, (h, w)) if src is not None else np.arange(1.0, h * w + 1.0).reshape(h, w))
         arr = aa.Array2D.no_mask(values=vals, pixel_scales=obj.pixel_scales)
         own("image_array2d", arr._array)
         return obj.convolved_array_from(array=arr)
@@ -720,14 +961,24 @@ def do_query(obj, kind, name, arg, build, track=None):
         return obj.regularization_weights_from(index=int(arg))
     if name == "pixel_signals_from":
         return obj.pixel_signals_from(signal_scale=float(Fraction(arg)))
+    if name == "mapped_to_source_from" and arg == "bad_len":
+        # a caller's array of the wrong length: the call fails (or not) in the middle; the objects are used afterwards
+        class _Slim:
+            def __init__(self, a):
+                self.slim = a
+        n = obj.mapper_grids.mask.pixels_in_mask
+        return obj.mapped_to_source_from(array=_Slim(own("array_values", np.arange(1.0, n + 2.0))))
     if name == "mapped_to_source_from":
         n = obj.mapper_grids.mask.pixels_in_mask
         arr = aa.Array2D(values=own("array_values", np.arange(1.0, n + 1.0)), mask=obj.mapper_grids.mask)
         own("array", arr._array)
         return obj.mapped_to_source_from(array=arr)
     if name == "mapper_interpolated_array_from":
-        vals = own("values", np.arange(1.0, obj.params + 1.0))
-        return obj.interpolated_array_from(values=vals, shape_native=_shape_arg(arg))
+        bad, _, shp = arg.rpartition(":")
+        vals = own("values", np.arange(1.0, obj.params + (2.0 if bad == "bad_len" else 1.0)))
+        if bad == "readonly":
+            vals.flags.writeable = False
+        return obj.interpolated_array_from(values=vals, shape_native=_shape_arg(shp))
     if name == "source_quantity_dict_from":
         return obj.source_quantity_dict_from(source_quantity=obj.reconstruction)
     if name == "convolve_mapping_matrix":
@@ -735,7 +986,10 @@ def do_query(obj, kind, name, arg, build, track=None):
         return obj.convolver.convolve_mapping_matrix(mapping_matrix=mm)
     if name == "binned_array_2d_from":
         n = obj.sub_total
-        return obj.binned_array_2d_from(array=own("array", np.arange(1.0, n + 1.0)))
+        arr = own("array", np.arange(1.0, n + (2.0 if arg == "bad_len" else 1.0)))
+        if arg == "readonly":
+            arr.flags.writeable = False
+        return obj.binned_array_2d_from(array=arr)
     raise ValueError(f"unknown query {name}")
 
 
@@ -869,7 +1123,7 @@ def direct_expectation(obj, kind, key):
     return None
 
 
-def rebuild(obj, kind):
+def rebuild(obj, kind, kernel_ok=False):
     """a brand-new object constructed through the public constructor from `obj`'s own array and mask
     (its *contents*); None when the kind has no such constructor or the contents are not a valid input."""
     aa = load_autoarray()
@@ -881,6 +1135,9 @@ def rebuild(obj, kind):
         if kind == "Array2D":
             return aa.Array2D(values=np.array(obj.array), mask=obj.mask, header=obj.header,
                               store_native=obj.store_native)
+        if kind == "Kernel2D" and kernel_ok:
+            return aa.Kernel2D(values=np.array(obj.array), mask=obj.mask, header=obj.header,
+                               store_native=obj.store_native)
         if kind == "Grid2D":
             return aa.Grid2D(values=np.array(obj.array), mask=obj.mask,
                              store_native=len(np.shape(obj.array)) == 3,
@@ -915,6 +1172,160 @@ def safe_value(fn):
 
 
 # ==================================================================================================
+# module-level state of the library (round 4, L2): a fresh-object expectation is evaluated with every
+# module-level / class-level mutable container of autoarray (memo dictionaries, registries, lru caches) put
+# back to the content it had when the package was imported — "a freshly built equal object" must not see
+# what an earlier object left in a module-level memo keyed on shape / np.allclose / a seed only
+# ==================================================================================================
+_MODSTATE = {"pristine": None, "conts": None, "lru": None, "n_modules": 0}
+
+
+def _container_copy(c):
+    return list(c) if isinstance(c, list) else set(c) if isinstance(c, set) else dict(c)
+
+
+def _container_assign(c, content):
+    if isinstance(c, list):
+        c[:] = content
+    else:
+        c.clear()
+        c.update(content)
+
+
+def _scan_module_state():
+    import types
+    conts, lru = {}, []
+    for name, mod in list(sys.modules.items()):
+        if mod is None or not (name == "autoarray" or name.startswith("autoarray.")):
+            continue
+        for k, v in list(vars(mod).items()):
+            if k.startswith("__"):
+                continue
+            if isinstance(v, (dict, list, set)):
+                conts[(name, k)] = v
+            elif isinstance(v, type) and getattr(v, "__module__", None) == name:
+                for ck, cv in list(vars(v).items()):
+                    if not ck.startswith("__") and isinstance(cv, (dict, list, set)):
+                        conts[(name, f"{v.__name__}.{ck}")] = cv
+                    f = getattr(cv, "__func__", cv)
+                    if hasattr(f, "cache_clear"):
+                        lru.append(f)
+                    elif isinstance(f, types.FunctionType):
+                        for fk, fv in list(vars(f).items()):
+                            if isinstance(fv, (dict, list, set)):
+                                conts[(name, f"{v.__name__}.{ck}.{fk}")] = fv
+            elif hasattr(v, "cache_clear") and callable(v):
+                lru.append(v)
+            elif isinstance(v, types.FunctionType) and v.__module__ == name:
+                for fk, fv in list(vars(v).items()):
+                    if not fk.startswith("__") and isinstance(fv, (dict, list, set)):
+                        conts[(name, f"{k}.{fk}")] = fv
+    return conts, lru
+
+
+def module_state_init():
+    """record the import-time content of every module-level container (called once, before any case)."""
+    if _MODSTATE["pristine"] is None:
+        load_autoarray()
+        conts, lru = _scan_module_state()
+        _MODSTATE.update(conts=conts, lru=lru, pristine={k: _container_copy(c) for k, c in conts.items()},
+                         n_modules=len(sys.modules))
+
+
+def module_state_rescan():
+    """containers created after import (lazily created memo dictionaries) start empty."""
+    module_state_init()
+    conts, lru = _scan_module_state()
+    for k, c in conts.items():
+        if k not in _MODSTATE["conts"] or _MODSTATE["conts"][k] is not c:
+            known = k in _MODSTATE["pristine"]
+            _MODSTATE["conts"][k] = c
+            if not known:
+                _MODSTATE["pristine"][k] = type(c)() if isinstance(c, (dict, list, set)) else {}
+    _MODSTATE["lru"] = lru
+
+
+class pristine_module_state:
+    """context: module-level containers hold their import-time content; restored afterwards."""
+
+    def __enter__(self):
+        module_state_init()
+        self.saved = {}
+        for k, c in _MODSTATE["conts"].items():
+            try:
+                self.saved[k] = _container_copy(c)
+                _container_assign(c, _MODSTATE["pristine"][k])
+            except Exception:
+                self.saved.pop(k, None)
+        for f in _MODSTATE["lru"]:
+            try:
+                f.cache_clear()
+            except Exception:
+                pass
+        return self
+
+    def __exit__(self, *a):
+        for k, content in self.saved.items():
+            try:
+                _container_assign(_MODSTATE["conts"][k], content)
+            except Exception:
+                pass
+        return False
+
+
+# ==================================================================================================
+# interrupts (round 4, L2 "fault then reuse"): an exception injected at the k-th call of a module-level
+# function of the library's *_util modules made during one read / query (a MemoryError / KeyboardInterrupt can
+# arrive at any call boundary); the objects are used afterwards and must report fresh-object values
+# ==================================================================================================
+class InjectedFault(MemoryError):
+    pass
+
+
+def _util_functions():
+    import types
+    out = []
+    for name, mod in list(sys.modules.items()):
+        if mod is None or not name.startswith("autoarray.") or not name.rsplit(".", 1)[-1].endswith("util"):
+            continue
+        if name.endswith("numba_util"):
+            continue
+        for fn, f in list(vars(mod).items()):
+            if isinstance(f, types.FunctionType) and getattr(f, "__module__", None) == name and not fn.startswith("_"):
+                out.append((mod, fn, f))
+    return out
+
+
+class inject_fault:
+    """context: the k-th call (1-based) of any library util function raises InjectedFault."""
+
+    def __init__(self, k):
+        self.k, self.count, self.fired, self.site = k, 0, False, None
+
+    def __enter__(self):
+        import functools
+        self.patched = []
+        for mod, fn, f in _util_functions():
+            def mk(f=f, fn=fn, mod=mod):
+                @functools.wraps(f)
+                def wrapper(*a, **kw):
+                    self.count += 1
+                    if self.count == self.k:
+                        self.fired, self.site = True, f"{mod.__name__}.{fn}"
+                        raise InjectedFault(f"injected at call {self.k}: {mod.__name__}.{fn}")
+                    return f(*a, **kw)
+                return wrapper
+            setattr(mod, fn, mk())
+            self.patched.append((mod, fn, f))
+        return self
+
+    def __exit__(self, *a):
+        for mod, fn, f in self.patched:
+            setattr(mod, fn, f)
+        return False
+
+
+# ==================================================================================================
 # running a history
 # ==================================================================================================
 def term_key(root, path):
@@ -927,8 +1338,8 @@ class FreshEval:
     _shared = {}  # build-key -> memo; the same fresh value serves the oracle and the model's interpretation
 
     def __init__(self, build):
-        self.build = build
         bk = hashlib.sha1(json.dumps(build, sort_keys=True).encode()).hexdigest()
+        self.build = expand_build(build)
         if bk not in FreshEval._shared:
             if len(FreshEval._shared) > 4000:
                 FreshEval._shared.clear()
@@ -938,28 +1349,72 @@ class FreshEval:
     def obj(self, root, path):
         g = build_graph(self.build, upto=root, track=False)
         o, kind = g.pool[root], g.kinds[root]
+        wb = world_of(self.build, root)[0]
         for gname in path:
-            o = do_derive(o, kind, gname, self.build)
+            o = do_derive(o, kind, gname, wb)
             kind = result_kind(kind, gname)
         return o, kind
 
     def value(self, root, path, step):
         k = (root, tuple(path), step["op"], step.get("key"), step.get("name"), step.get("arg"))
         if k not in self.memo:
-            try:
-                o, kind = self.obj(root, path)
-            except Exception as e:
-                self.memo[k] = "err:failed-derivation"
-                return self.memo[k]
-            if step["op"] == "read":
-                self.memo[k] = safe_value(lambda: do_read(o, step["key"]))
-            else:
-                self.memo[k] = safe_value(lambda: do_query(o, kind, step["name"], step.get("arg", ""), self.build))
+            with pristine_module_state():
+                try:
+                    o, kind = self.obj(root, path)
+                except Exception as e:
+                    self.memo[k] = "err:failed-derivation"
+                    return self.memo[k]
+                wb = world_of(self.build, root)[0]
+                if step["op"] == "read":
+                    self.memo[k] = safe_value(lambda: do_read(o, step["key"]))
+                else:
+                    self.memo[k] = safe_value(lambda: do_query(o, kind, step["name"], step.get("arg", ""), wb))
         return self.memo[k]
 
 
+def _table_cached_names(kind):
+    """the quantities the effects table records as cached_property for this kind (top-level names): the ones a
+    user editing the object in place is told to invalidate."""
+    return {k for k, e in effects()["kinds"].get(kind, {}).get("reads", {}).items()
+            if e.get("cached") and "." not in k}
+
+
+def do_setitem(obj, kind, st):
+    """user-level in-place assignment through the public `__setitem__` of the library's own types."""
+    arr = np.asarray(obj.array)
+    lead = arr.shape[:-1] if kind in ("Grid2D", "VectorYX2D") else arr.shape
+    n = int(np.prod(lead)) if len(lead) else 0
+    if n == 0:
+        return False
+    k = int(Fraction(st["pos"]) * n) % n
+    idx = tuple(int(i) for i in np.unravel_index(k, lead))
+    if len(idx) == 1:
+        idx = idx[0]
+    v = float(Fraction(st["val"]))
+    if kind == "Mask2D":
+        obj[idx] = not bool(arr[idx])
+    elif kind in ("Grid2D", "VectorYX2D"):
+        obj[idx] = np.array([v, -v / 2 + 0.25])
+    elif kind == "Visibilities":
+        obj[idx] = complex(v, 0.5 - v)
+    else:
+        obj[idx] = v
+    for name in _table_cached_names(kind):
+        obj.__dict__.pop(name, None)
+    return True
+
+
+_RUNS = [0]
+
+
 def run_history(case):
-    b = case["build"]
+    b = expand_build(case["build"])
+    module_state_init()
+    _RUNS[0] += 1
+    if b.get("graph") == "twoworld" or _RUNS[0] % 32 == 0 or len(sys.modules) != _MODSTATE["n_modules"]:
+        # containers created since the last look (lazily created memo dictionaries) start empty in a fresh world
+        module_state_rescan()
+        _MODSTATE["n_modules"] = len(sys.modules)
     pre = polluted_defaults()
     try:
         g = build_graph(b)
@@ -970,9 +1425,11 @@ def run_history(case):
         g.ctor_changed.insert(0, {"stage": -1, "kind": "(state left by earlier operations in this process)",
                                   "changed": pre})
     terms = [(i, []) for i in range(len(g.pool))]
-    fresh = FreshEval(b)
+    fresh = FreshEval(case["build"])
     steps_out = []
     poked = set()
+    edited = set()   # objects the user assigned into (`obj[k] = v`): expectation = an object rebuilt from its contents
+    tainted = set()  # objects derived from an edited object afterwards
     snap = Snapshot(g.inputs, g.pool)
     for st in case["history"]:
         o = st["obj"]
@@ -980,6 +1437,7 @@ def run_history(case):
             steps_out.append({"value": "err:no-object", "changed": []})
             continue
         obj, kind = g.pool[o], g.kinds[o]
+        wb = world_of(b, terms[o][0])[0]
         out = {}
         if kind == "Failed":
             # the derivation that should have produced this object raised (in the fresh world it must too)
@@ -990,9 +1448,11 @@ def run_history(case):
                 g.parents.append([])
                 terms.append((root, path + [st["g"]]))
                 out["value"] = None
+            elif st["op"] in ("setitem", "fault"):
+                out["value"] = None
             else:
                 out["value"] = "err:failed-derivation"
-                out["fresh"] = fresh.value(root, path, st)
+                out["fresh"] = out["value"] if (o in edited or o in tainted) else fresh.value(root, path, st)
         elif st["op"] == "read":
             holder = {}
 
@@ -1002,28 +1462,101 @@ def run_history(case):
 
             out["value"] = safe_value(rd)
             root, path = terms[o]
-            out["fresh"] = out["value"] if o in poked else fresh.value(root, path, st)
-            if path and "v" in holder:
-                # derived object: consistency with its own contents, stated independently
+            if o in edited or o in tainted:
+                out["fresh"] = out["value"]
+            else:
+                out["fresh"] = out["value"] if o in poked else fresh.value(root, path, st)
+            if (path or o in edited) and "v" in holder:
+                # derived / user-edited object: consistency with its own contents, stated independently
                 exp = direct_expectation(obj, kind, st["key"])
                 if exp is not None:
                     out["direct"] = bool(fp_value(exp) == fp_value(holder["v"]))
-                rb = rebuild(obj, kind)
-                # only when the constructor takes the derived object's array as it is (a derivation may leave
-                # values in masked cells which the constructor would normalise to zero)
-                if rb is not None and _same_contents(rb, obj, kind):
-                    rbv = safe_value(lambda: do_read(rb, st["key"]))
-                    out["rebuilt"] = rbv
+                with pristine_module_state():
+                    rb = rebuild(obj, kind)
+                    # only when the constructor takes the derived object's array as it is (a derivation may leave
+                    # values in masked cells which the constructor would normalise to zero)
+                    if rb is not None and _same_contents(rb, obj, kind):
+                        rbv = safe_value(lambda: do_read(rb, st["key"]))
+                        out["rebuilt"] = rbv
         elif st["op"] == "query":
             qargs = {}
-            out["value"] = safe_value(lambda: do_query(obj, kind, st["name"], st.get("arg", ""), b, track=qargs))
+            out["value"] = safe_value(lambda: do_query(obj, kind, st["name"], st.get("arg", ""), wb, track=qargs))
             out["_qargs_changed"] = sorted(f"input:query-arg:{nm}" for nm, (a, f0) in qargs.items() if fp_bytes(a) != f0)
             root, path = terms[o]
-            out["fresh"] = fresh.value(root, path, st)
+            if o in edited or o in tainted:
+                out["fresh"] = out["value"]
+                if (path or o in edited) and not str(out["value"]).startswith("err:"):
+                    with pristine_module_state():
+                        rb = rebuild(obj, kind)
+                        if rb is not None and _same_contents(rb, obj, kind):
+                            out["rebuilt"] = safe_value(lambda: do_query(rb, kind, st["name"], st.get("arg", ""), wb))
+            else:
+                out["fresh"] = fresh.value(root, path, st)
+        elif st["op"] == "fault":
+            # an interrupt injected at the k-th internal call of a read / query; the value of the interrupted
+            # operation is not compared, everything the objects report afterwards is
+            inner = st["inner"]
+            # k = "all": one attempt per internal call boundary (k = 1, 2, ...) until the operation completes
+            ks_ = range(1, 41) if st["k"] == "all" else [st["k"]]
+            fired, qch_all, ch_all, own_all = [], [], [], []
+            for k_ in ks_:
+                with inject_fault(k_) as inj:
+                    if inner["op"] == "read":
+                        v = safe_value(lambda: do_read(obj, inner["key"]))
+                    else:
+                        qargs = {}
+                        v = safe_value(lambda: do_query(obj, kind, inner["name"], inner.get("arg", ""), wb, track=qargs))
+                        qch_all += [f"input:query-arg:{nm}" for nm, (a, f0) in qargs.items() if fp_bytes(a) != f0]
+                if not inj.fired:
+                    break
+                fired.append(inj.site)
+                if st["k"] == "all":
+                    # attribute a change to the attempt that made it
+                    mid = Snapshot(g.inputs, g.pool)
+                    c_ = mid.changed_since(snap)
+                    if c_:
+                        ch_all += [f"{x} (interrupted at call {k_}: {inj.site})" for x in c_]
+                        own_all += mid.owners_changed_since(snap, g.pool, g.inputs)
+                        snap = mid
+            out["_qargs_changed"] = sorted(set(qch_all))
+            out["_pre_changed"], out["_pre_owners"] = ch_all, own_all
+            out["value"] = None
+            out["fired"] = fired[-1] if fired else None
+            out["attempts"] = len(fired)
+        elif st["op"] == "setitem":
+            # the USER assigns into the object through its public __setitem__ and invalidates the documented
+            # cached properties; from here on the expectation for this object is an object rebuilt from its contents
+            ok = False
+            if _is_structure(obj):
+                try:
+                    ok = do_setitem(obj, kind, st)
+                except Exception:
+                    ok = False
+            aliased = []
+            if ok:
+                edited.add(o)
+                # numpy semantics: whatever shares memory with the edited array changes with it (the caller's
+                # buffer of a by-reference constructor, a slice / view derived earlier) — legitimately
+                ea = np.asarray(obj.array)
+                for j, pobj in enumerate(g.pool):
+                    if j == o or pobj is None:
+                        continue
+                    aj = pobj if isinstance(pobj, np.ndarray) else getattr(pobj, "_array", None)
+                    if isinstance(aj, np.ndarray) and np.may_share_memory(aj, ea):
+                        aliased.append(j)
+                        (poked if isinstance(pobj, np.ndarray) else tainted).add(j)
+                        if not isinstance(pobj, np.ndarray):
+                            # (the view's documented cached properties are invalidated with the owner's)
+                            for name in _table_cached_names(g.kinds[j]):
+                                pobj.__dict__.pop(name, None)
+            out["value"] = None
+            out["applied"] = ok
+            out["aliased"] = aliased
+            snap = Snapshot(g.inputs, g.pool)  # new baseline: the user's own write is not the library's
         elif st["op"] == "poke":
             # the CALLER rewrites its own input array after construction: constructors declared to copy their
             # argument must be unaffected (every later read is still compared with the fresh-object value)
-            if isinstance(obj, np.ndarray):
+            if isinstance(obj, np.ndarray) and obj.flags.writeable:
                 if obj.dtype == bool:
                     obj[...] = ~obj
                 else:
@@ -1034,7 +1567,7 @@ def run_history(case):
             snap = Snapshot(g.inputs, g.pool)  # new baseline: the caller's own write is not the library's
         elif st["op"] == "derive":
             try:
-                new = do_derive(obj, kind, st["g"], b)
+                new = do_derive(obj, kind, st["g"], wb)
                 ok = True
             except Exception as e:
                 new, ok = None, False
@@ -1052,10 +1585,12 @@ def run_history(case):
                 g.kinds.append("Failed")
                 g.parents.append([])
                 terms.append((terms[o][0], terms[o][1] + [st["g"]]))
+            if o in edited or o in tainted:
+                tainted.add(len(g.pool) - 1)
         after = Snapshot(g.inputs, g.pool)
         qch = out.pop("_qargs_changed", [])
-        out["changed"] = sorted(after.changed_since(snap) + qch)
-        out["owners"] = sorted(after.owners_changed_since(snap, g.pool, g.inputs) + qch)
+        out["changed"] = sorted(out.pop("_pre_changed", []) + after.changed_since(snap) + qch)
+        out["owners"] = sorted(set(out.pop("_pre_owners", []) + after.owners_changed_since(snap, g.pool, g.inputs) + qch))
         snap = after
         steps_out.append(out)
     meta = {"kinds": g.kinds[: g.n_roots], "parents": g.parents[: g.n_roots],
@@ -1068,7 +1603,7 @@ def run_history(case):
 # ==================================================================================================
 def run_rng(case):
     aa = load_autoarray()
-    b = case["build"]
+    b = expand_build(case["build"])
     h, w = b["shape"]
     scales = tuple(float(Fraction(s)) for s in b.get("scales", ["1", "1"]))
     img_n = _arr(b["image"], (h, w))
@@ -1303,7 +1838,7 @@ def pokeable(b):
     """pool indexes of caller-owned ndarray buffers whose constructor is declared to COPY its argument
     (Mask2D, Array2D, Kernel2D, `*.no_mask` of arrays, Grid2D / VectorYX2D except slim input with slim storage,
     which keep the caller's array by reference, as do Visibilities and MapperValued.values)."""
-    if b["graph"] == "visibilities":
+    if b["graph"] in ("visibilities", "twoworld") or b.get("readonly"):
         return []
     out = [0]
     if b["graph"] == "structure":
@@ -1337,16 +1872,60 @@ class Alphabet:
     def derivs(self, kind):
         return self.t.get(kind, {}).get("derive", {})
 
-    def random_g(self, rng, kind, how):
+    def random_g(self, rng, kind, how, extras=False):
         spec = self.derivs(kind)[how]
         args = spec.get("args")
         if not args:
             return how
-        return f"{how}:{rng.choice(args)}"
+        a = rng.choice(args)
+        if extras and how in TWIN_OK and rng.random() < 0.5:
+            a = twin_arg(a, rng)
+        return f"{how}:{a}"
 
-    def random_query(self, rng, kind, name):
+    def random_query(self, rng, kind, name, extras=False):
         args = self.queries(kind)[name].get("args")
-        return {"op": "query", "name": name, "arg": rng.choice(args) if args else ""}
+        a = rng.choice(args) if args else ""
+        if extras:
+            bad = BAD_QUERY_ARGS.get(name)
+            r = rng.random()
+            if bad and r < 0.3:
+                a = rng.choice(bad)
+            elif args and name in TWIN_OK and r < 0.6:
+                a = twin_arg(a, rng)
+        return {"op": "query", "name": name, "arg": a}
+
+
+# arguments with which a query fails (or must cope) in the middle of its work (round 4: fault then reuse)
+BAD_QUERY_ARGS = {
+    "mapped_to_source_from": ["bad_len"],
+    "mapper_interpolated_array_from": ["bad_len:3x3", "readonly:3x3"],
+    "binned_array_2d_from": ["bad_len", "readonly"],
+    "regularization_weights_from": ["7"],
+    "blurring_from": ["9x9", "2x2", "15x3"],
+    "max_pixel_list_from": ["99,0", "0,1"],
+    "trimmed_array_from": ["9x9"],
+    "convolved_array_from": ["bad_native"],
+}
+_EPS = Fraction(1, 1 << 20)
+# operations whose argument is a real number / coordinate (near-duplicate twins make sense)
+TWIN_OK = {"distances_to_coordinate_from", "squared_distances_to_coordinate_from", "extent_with_buffer_from",
+           "pixel_signals_from", "mul", "rmul", "add", "sub", "rsub", "div", "mul_array", "subtracted_from",
+           "deflected", "rescaled"}
+
+
+def twin_arg(a, rng):
+    """a near-duplicate of a numeric argument string ("1/2,-1", "3/4", "3x3" stays): one component moved by 2^-20
+    relative (inside np.allclose's default tolerance, far outside 1e-9), zero by 2^-33 absolute."""
+    if "x" in a or ":" in a or a == "":
+        return a
+    parts = a.split(",")
+    try:
+        vals = [Fraction(x) for x in parts]
+    except Exception:
+        return a
+    i = rng.randrange(len(vals))
+    vals[i] = vals[i] * (1 + _EPS) if vals[i] != 0 else Fraction(1, 1 << 33)
+    return ",".join(str(v) for v in vals)
 
 
 def random_history(rng, kinds, nsteps, alpha: Alphabet, focus=None, pokes=()):
@@ -1419,6 +1998,8 @@ ROOT_KINDS = {
 
 
 def root_kinds(b):
+    if b["graph"] == "twoworld":
+        return root_kinds(b["worlds"][0]) + root_kinds(b["worlds"][1])
     if b["graph"] in ROOT_KINDS:
         return ROOT_KINDS[b["graph"]](b)
     ks = ["Buffer", "Mask2D", "Buffer", "Buffer", "Buffer", "Array2D", "Array2D", "Kernel2D", "Imaging",
@@ -1431,7 +2012,7 @@ def root_kinds(b):
     ks += ["Inversion", "FitInversion"]
     mv = b.get("valued")
     if mv:
-        if mv["values"] != "reconstruction":
+        if not mv_from_rec(mv):
             ks.append("Buffer")
         ks.append(mv_kind_of(mv))
     return ks
@@ -1466,7 +2047,13 @@ class C11(PropertyCheck):
     assumptions = [
         "histories use the operation alphabet of c11_effects.json (public properties, query methods, arithmetic, "
         "slicing, copy, apply_mask, trimming, padding, resizing); user-level in-place assignment (x[i] = v) is not "
-        "a query and is excluded",
+        "a query: where a history contains one (round-4 stream), the user is taken to invalidate the cached "
+        "properties the effects table documents (amplitudes / phases, is_uniform / over_sampler, circular_radius) of "
+        "the object and of its views, and the expectation becomes an object rebuilt from the edited contents",
+        "an interrupted read / query (exception injected at an internal call boundary, read-only or wrong-length "
+        "caller input) reports nothing itself; everything the objects report afterwards must be the fresh-object value",
+        "fresh-object expectations are evaluated with autoarray's module-level / class-level containers reset to "
+        "their import-time content (so that a module-level memo cannot make history and expectation agree)",
         "a buffer whose cache entry is deleted by the reading operation itself (curvature_matrix consumed by "
         "curvature_reg_matrix) is not protected after that step: the property speaks about values reported subsequently",
     ]
@@ -1652,6 +2239,567 @@ class C11(PropertyCheck):
         n = 40 if quick else 300
         for i in range(n):
             yield self._rng_case(rng, maxsteps)
+        # 7. round 4: reuse histories on real objects (faults, user edits, twins, two worlds)
+        yield from self._reuse_cases(rng, alpha, quick)
+
+    # ------------------------------------------------------------------ round 4: reuse histories (L2)
+    INV_CORE = ("curvature_matrix", "operated_mapping_matrix", "data_vector", "reconstruction",
+                "curvature_reg_matrix", "mapped_reconstructed_data", "regularization_matrix", "mapping_matrix",
+                "log_det_curvature_reg_matrix_term", "regularization_term")
+
+    def _ops_of(self, rng, alpha, ks, idxs, extras=False, exclude=()):
+        ops = []
+        for o in idxs:
+            for key in alpha.reads(ks[o]):
+                if (ks[o], key) in exclude:
+                    continue
+                ops.append({"op": "read", "obj": o, "key": key})
+            for name in alpha.queries(ks[o]):
+                if (ks[o], name) in exclude:
+                    continue
+                stq = alpha.random_query(rng, ks[o], name, extras=extras)
+                stq["obj"] = o
+                ops.append(stq)
+        return ops
+
+    def _inv_idxs(self, ks, base=0, with_dataset=True):
+        idx = [i for i, k in enumerate(ks) if k in ("Inversion", "Mapper", "FitInversion", "Mesh", "OverSampler",
+                                                     "Grid2DIrregular") or k.startswith("MapperValued")]
+        return idx + ([base + 9] if with_dataset else [])
+
+    def _sample_ops(self, rng, alpha, ks, idxs, n, extras=False, exclude=()):
+        """a sample of n operations on the given objects, always containing a few of the inversion's core
+        quantities (the ones every other quantity is computed from)."""
+        ops = self._ops_of(rng, alpha, ks, idxs, extras=extras, exclude=exclude)
+        core = [op for op in ops if op["op"] == "read" and ks[op["obj"]] == "Inversion" and op["key"] in self.INV_CORE]
+        pick = rng.sample(core, min(4, len(core)))
+        rest = [op for op in ops if op not in pick]
+        pick += rng.sample(rest, min(max(0, n - len(pick)), len(rest)))
+        rng.shuffle(pick)
+        return pick
+
+    def _inv_build(self, rng, nm=None, wt=None, valued="masked"):
+        m, _ = _mask_for_dataset(rng)
+        b = dataset_build(rng, m, inversion=True)
+        while nm is not None and len(b["mappers"]) != nm:
+            b = dataset_build(rng, m, inversion=True)
+        if wt is not None:
+            b["w_tilde"] = wt
+        if b["w_tilde"] and b["psf_shape"][0] != b["psf_shape"][1]:
+            k = max(b["psf_shape"])
+            b["psf_shape"] = [k, k]
+            b["psf"] = [q(_pos(rng, 0, 4) + Fraction(1, 4)) for _ in range(k * k)]
+        if valued == "masked":
+            npix = n_params_of(b["mappers"][0])
+            pm = "".join(rng.choice("01") for _ in range(npix))
+            pm = pm if "1" in pm else "1" + pm[1:]
+            pm = pm if "0" in pm else "0" + pm[1:]
+            vals = [_dy(rng, 0, 8) + Fraction(1, 4) for _ in range(npix)]
+            b["valued"] = {"values": [q(0 if c == "1" else v) for v, c in zip(vals, pm)], "pixel_mask": pm}
+        return b
+
+    def _reuse_cases(self, rng, alpha, quick):
+        """history stream on REAL reused objects (DESIGN §13, L2): fault-then-reuse (read-only / wrong-length
+        inputs, failing query arguments, interrupts injected at internal call boundaries), user edits through
+        `__setitem__`, near-duplicate argument twins, two worlds in one process (near-duplicate inputs, equal
+        shapes, shared configuration / helper objects) — every observation compared with a freshly built object."""
+        # ---- (iii) fault then reuse: inputs that make an operation fail in the middle -------------------
+        n = 10 if quick else 60
+        for i in range(n):
+            b = self._inv_build(rng, wt=(i % 3 == 0))
+            how = ["readonly_values", "len+1", "len-1", "readonly_all", "readonly_values"][i % 5]
+            if how == "readonly_values":
+                # values non-zero under the pixel mask: `values_masked` has to write — and cannot
+                npix = n_params_of(b["mappers"][0])
+                b["valued"]["values"] = [q(_dy(rng, 0, 8) + Fraction(1, 4)) for _ in range(npix)]
+                b["readonly"] = ["mv_values"] + (["mesh_pixel_mask"] if rng.random() < 0.5 else [])
+            elif how in ("len+1", "len-1"):
+                b["valued"]["len_delta"] = 1 if how == "len+1" else -1
+            else:
+                b["readonly"] = ["mask", "data", "noise", "psf", "model_data", "mv_values", "mesh_pixel_mask"]
+            ks = root_kinds(b)
+            mvi = len(ks) - 1
+            mapper = ks.index("Mapper")
+            mv_ops = self._ops_of(rng, alpha, ks, [mvi], extras=True)
+            rng.shuffle(mv_ops)
+            pre = self._sample_ops(rng, alpha, ks, [mapper, ks.index("Inversion")], rng.choice([0, 3, 6]))
+            post = self._sample_ops(rng, alpha, ks, self._inv_idxs(ks, with_dataset=False), 14)
+            post += [{"op": "read", "obj": mapper, "key": "mapping_matrix"}]
+            yield {"tag": f"reuse_fault_input_{how}", "kind": "history", "build": b,
+                   "history": pre + mv_ops + post + mv_ops[:4] + post}
+        # failing query arguments on every kind that has queries
+        n = 8 if quick else 40
+        for i in range(n):
+            b = self._inv_build(rng)
+            ks = root_kinds(b)
+            idxs = self._inv_idxs(ks) + [1, 7]
+            qs = [op for op in self._ops_of(rng, alpha, ks, idxs, extras=True) if op["op"] == "query"]
+            rng.shuffle(qs)
+            post = self._sample_ops(rng, alpha, ks, idxs, 16)
+            yield {"tag": "reuse_fault_args", "kind": "history", "build": b,
+                   "history": post[:5] + qs + post + qs[:3] + post}
+        # interrupts injected at internal call boundaries of reads / queries
+        n = 24 if quick else 160
+        for i in range(n):
+            r = i % 4
+            if r == 3:
+                struct = rng.choice(["Array2D", "Grid2D", "Mask2D", "Kernel2D", "Kernel2D", "VectorYX2D"])
+                b = self._struct_case_build(rng, struct)
+                ks = root_kinds(b)
+                idxs = [len(ks) - 1]
+            elif r == 2:
+                m, _ = _mask_for_dataset(rng)
+                b = dataset_build(rng, m)
+                ks = root_kinds(b)
+                idxs = [8, 9, 11]
+            else:
+                b = self._inv_build(rng, wt=(r == 1))
+                ks = root_kinds(b)
+                idxs = self._inv_idxs(ks)
+            if r != 3:
+                idxs = idxs + [7]  # the PSF kernel object
+            ops = self._sample_ops(rng, alpha, ks, idxs, 16)
+            # every query of the objects involved is interrupted at every one of its internal call boundaries
+            # (k = "all"); reads at a random one or at all of them
+            qs = [op for op in self._ops_of(rng, alpha, ks, idxs) if op["op"] == "query"]
+            hist = list(ops[:rng.choice([0, 2, 5])])
+            for op in rng.sample(qs, min(3, len(qs))) + rng.sample(ops, min(5, len(ops))):
+                k = "all" if (op["op"] == "query" or rng.random() < 0.4) else rng.choice([1, 1, 2, 2, 3, 4, 5, 7, 10])
+                hist.append({"op": "fault", "obj": op["obj"], "k": k,
+                             "inner": {k_: v for k_, v in op.items() if k_ != "obj"}})
+                hist += rng.sample(ops, min(3, len(ops)))
+            yield {"tag": f"reuse_interrupt_{b['graph']}", "kind": "history", "build": b, "history": hist + ops}
+        # ---- (i) read -> user edit through the public __setitem__ -> read --------------------------------
+        reps = 2 if quick else 10
+        for _ in range(reps):
+            for struct in ("Array2D", "Grid2D", "VectorYX2D", "Kernel2D", "Mask2D", "Visibilities"):
+                b = self._struct_case_build(rng, struct)
+                ks = root_kinds(b)
+                top = len(ks) - 1
+                ops = self._ops_of(rng, alpha, ks, [top])
+                rng.shuffle(ops)
+                half = ops[: len(ops) // 2]
+                edit = lambda o: {"op": "setitem", "obj": o, "pos": q(Fraction(rng.randint(0, 63), 64)),
+                                  "val": q(_dy(rng, 1, 8) + Fraction(1, 8))}
+                hist = half + [edit(top)] + ops + [edit(top)] + ops[len(ops) // 2:]
+                # objects derived before / after the edit
+                derivs = list(alpha.derivs(struct))
+                for how in rng.sample(derivs, min(3, len(derivs))):
+                    d = len(ks) + sum(1 for st in hist if st["op"] == "derive")
+                    hist.append({"op": "derive", "obj": top, "g": alpha.random_g(rng, struct, how)})
+                    rk = alpha.derivs(struct)[how].get("result") or struct
+                    keys = alpha.reads(rk)
+                    probe = [{"op": "read", "obj": d, "key": k} for k in rng.sample(keys, min(6, len(keys)))]
+                    hist += probe + [edit(rng.choice([top, d]))] + probe + \
+                        [{"op": "read", "obj": top, "key": k} for k in rng.sample(alpha.reads(struct), 4)]
+                yield {"tag": f"reuse_setitem_{struct}", "kind": "history", "build": b, "history": hist}
+        # ---- (ii) near-duplicate argument twins on the same object ---------------------------------------
+        n = 16 if quick else 100
+        for i in range(n):
+            struct = rng.choice(["Array2D", "Grid2D", "Grid2D", "VectorYX2D", "Visibilities", "Mask2D", "Kernel2D"])
+            b = self._struct_case_build(rng, struct)
+            ks = root_kinds(b)
+            top = len(ks) - 1
+            hist = []
+            pool_kinds = list(ks)
+            for _ in range(rng.randint(2, 4)):
+                qs = list(alpha.queries(struct))
+                tw = [h for h in alpha.derivs(struct) if h in TWIN_OK]
+                if qs and (rng.random() < 0.5 or not tw):
+                    name = rng.choice(qs)
+                    a0 = alpha.random_query(rng, struct, name)
+                    a1 = {**a0, "arg": twin_arg(a0["arg"], rng)} if name in TWIN_OK else \
+                        alpha.random_query(rng, struct, name, extras=True)
+                    hist += [{**a0, "obj": top}, {**a1, "obj": top}, {**a0, "obj": top}]
+                elif tw:
+                    how = rng.choice(tw)
+                    g0 = alpha.random_g(rng, struct, how)
+                    g1 = f"{how}:{twin_arg(g0.partition(':')[2], rng)}"
+                    keys = rng.sample(alpha.reads(struct), 3)
+                    for gname in (g0, g1, g0):
+                        d = len(pool_kinds)
+                        hist.append({"op": "derive", "obj": top, "g": gname})
+                        pool_kinds.append(struct)
+                        hist += [{"op": "read", "obj": d, "key": k} for k in keys + ["array"]]
+            yield {"tag": f"reuse_twin_args_{struct}", "kind": "history", "build": b, "history": hist}
+        # mapper / inversion queries with near-duplicate arguments
+        n = 4 if quick else 30
+        for i in range(n):
+            b = self._inv_build(rng)
+            ks = root_kinds(b)
+            mapper = ks.index("Mapper")
+            hist = []
+            for _ in range(3):
+                a0 = alpha.random_query(rng, "Mapper", "pixel_signals_from")
+                a1 = {**a0, "arg": twin_arg(a0["arg"], rng)}
+                hist += [{**a0, "obj": mapper}, {**a1, "obj": mapper}, {**a0, "obj": mapper}]
+            yield {"tag": "reuse_twin_args_Mapper", "kind": "history", "build": b, "history": hist}
+        # ---- (ii)/(iv) two worlds in one process ---------------------------------------------------------
+        n = 30 if quick else 200
+        for i in range(n):
+            yield self._two_world_case(rng, alpha, i)
+
+    TWIN_FIELDS = ("data", "noise", "psf", "scales", "origin", "coeff", "distort", "model", "mv_values")
+
+    def _perturb_list(self, xs, rng, all_entries=True, keep_zero=False):
+        """every entry (or one entry) multiplied by 1 + 2^-20; zeros moved by 2^-33."""
+        k = None if all_entries else rng.randrange(len(xs))
+        out = []
+        for i, x in enumerate(xs):
+            v = Fraction(x)
+            if k is None or i == k:
+                v = v * (1 + _EPS) if (v != 0 or keep_zero) else Fraction(1, 1 << 33)
+            out.append(q(v))
+        return out
+
+    def _two_world_case(self, rng, alpha, i):
+        import copy as _copy
+        mode = ["twin", "share", "shape", "twin", "share", "twin_struct", "share_struct"][i % 7]
+        if mode in ("twin_struct", "share_struct"):
+            struct = rng.choice(["Array2D", "Grid2D", "Grid2D", "VectorYX2D", "Kernel2D", "Mask2D", "Visibilities"])
+            b1 = self._struct_case_build(rng, struct)
+            b2 = _copy.deepcopy(b1)
+            share = []
+            if mode == "share_struct":
+                struct = "Grid2D"
+                b1 = self._struct_case_build(rng, struct)
+                b1["sub"] = rng.choice([1, 2])
+                b2 = self._struct_case_build(rng, struct)
+                b2["sub"] = b1["sub"]
+                share = ["over_sampling"]
+            else:
+                f = rng.choice(["values", "values", "scales", "origin"])
+                if struct == "Visibilities" or f == "values":
+                    if struct == "Mask2D":
+                        bits = list(b2["mask"]["bits"])
+                        k = rng.randrange(len(bits))
+                        bits[k] = "0" if bits[k] == "1" else "1"
+                        if "0" in bits:
+                            b2["mask"]["bits"] = "".join(bits)
+                    elif isinstance(b2["values"][0], list) if b2["values"] else False:
+                        flat = self._perturb_list([x for pr in b2["values"] for x in pr], rng, rng.random() < 0.5)
+                        b2["values"] = [flat[j:j + 2] for j in range(0, len(flat), 2)]
+                    elif b2.get("values"):
+                        b2["values"] = self._perturb_list(b2["values"], rng, rng.random() < 0.5)
+                    if b2.get("container") in ("int64", "list_int"):
+                        b2["container"] = b1["container"] = "ndarray"
+                else:
+                    b2[f] = self._perturb_list(b2[f], rng, rng.random() < 0.5)
+            b = {"graph": "twoworld", "worlds": [b1, b2], "share": share}
+            ks = root_kinds(b)
+            n1 = len(root_kinds(b1))
+            tops = [n1 - 1, len(ks) - 1]
+            ops1 = self._ops_of(rng, alpha, ks, [tops[0]], extras=False)
+            pick = rng.sample(range(len(ops1)), min(24, len(ops1)))
+            hist = []
+            for j in pick:
+                pair = [ops1[j], {**ops1[j], "obj": tops[1]}]
+                if rng.random() < 0.5:
+                    pair.reverse()
+                hist += pair
+            return {"tag": f"reuse_two_{mode}_{struct}", "kind": "history", "build": b, "history": hist + hist[:12]}
+        b1 = self._inv_build(rng, valued=rng.choice(["masked", None]))
+        if mode == "twin":
+            b2 = _copy.deepcopy(b1)
+            f = rng.choice(self.TWIN_FIELDS)
+            every = rng.random() < 0.6
+            if f == "coeff":
+                for ms in b2["mappers"]:
+                    ms["coeff"] = self._perturb_list([ms["coeff"]], rng)[0]
+            elif f == "mv_values":
+                if b2.get("valued") and not mv_from_rec(b2["valued"]):
+                    # (zeros stay zeros: values that are non-zero under the pixel mask are known finding D9b)
+                    b2["valued"]["values"] = self._perturb_list(b2["valued"]["values"], rng, True, keep_zero=True)
+                else:
+                    b2["data"] = self._perturb_list(b2["data"], rng, every)
+            else:
+                b2[f] = self._perturb_list(b2[f], rng, every)
+            share = []
+        elif mode == "shape":
+            # same frame, same number of unmasked pixels, same mesh sizes: everything else drawn afresh
+            b2 = _copy.deepcopy(b1)
+            m = mask_from_json(b1["mask"])
+            h, w = m.shape
+            for f, gen_ in (("data", lambda: _dy(rng, -2, 8)), ("noise", lambda: _pos(rng, 1, 4)),
+                            ("model", lambda: _dy(rng, -2, 8))):
+                b2[f] = [q(gen_()) for _ in b1[f]]
+            if rng.random() < 0.6:
+                # another mask of the same shape with the same count: rotate the unmasked region by one pixel
+                m2 = np.roll(m, 1, axis=rng.choice([0, 1]))
+                if (not m2[0].all()) or (not m2[-1].all()) or (not m2[:, 0].all()) or (not m2[:, -1].all()):
+                    m2 = m
+                b2["mask"] = _mask_json_np(m2)
+                b2["submasks"] = [mask_json(_rand_submask(rng, m2.tolist())) for _ in range(2)]
+            b2["psf"] = [q(_pos(rng, 0, 4) + Fraction(1, 4)) for _ in b1["psf"]]
+            for ms in b2["mappers"]:
+                ms["coeff"] = q(_pos(rng, 1, 4))
+            if b2.get("valued") and not mv_from_rec(b2["valued"]):
+                pm = b2["valued"].get("pixel_mask")
+                b2["valued"]["values"] = [q(0 if (pm and pm[k] == "1") else _dy(rng, 0, 8) + Fraction(1, 4))
+                                          for k in range(len(b2["valued"]["values"]))]
+            share = []
+        else:
+            share = rng.sample(["over_sampling", "over_sampling_pix", "over_sampling_dataset", "settings",
+                                "preloads", "regularization", "psf", "mask", "over_sampler"], rng.randint(2, 5))
+            if "over_sampler" in share and "mask" not in share:
+                share.append("mask")
+            b2 = self._inv_build(rng, nm=len(b1["mappers"]) if "settings" in share else None,
+                                 valued=rng.choice(["masked", None]))
+            if "settings" in share:
+                b2["w_tilde"], b2["positive_only"] = b1["w_tilde"], b1["positive_only"]
+            if "over_sampling" in share or "over_sampling_dataset" in share:
+                b2["sub"] = b1["sub"]
+            if "over_sampling_pix" in share or "over_sampling_dataset" in share or "over_sampler" in share:
+                b2["sub_pix"] = b1["sub_pix"]
+            if "psf" in share or b2["w_tilde"]:
+                b2["psf"], b2["psf_shape"], b2["normalize_psf"] = b1["psf"], b1["psf_shape"], b1["normalize_psf"]
+                b2["scales"] = b1["scales"]
+            if "mask" in share:
+                for f in ("mask", "scales", "origin", "submasks"):
+                    b2[f] = b1[f]
+                h, w = b1["mask"]["h"], b1["mask"]["w"]
+                n_un = b1["mask"]["bits"].count("0")
+                b2["data"] = [q(_dy(rng, -2, 8)) for _ in range(h * w)]
+                b2["noise"] = [q(_pos(rng, 1, 4)) for _ in range(h * w)]
+                b2["model"] = [q(_dy(rng, -2, 8)) for _ in range(n_un)]
+            if "regularization" in share:
+                for ms1, ms2 in zip(b1["mappers"], b2["mappers"]):
+                    if ms1["mesh"] == ms2["mesh"] or ms2.get("reg") == ms1.get("reg"):
+                        ms2["reg"], ms2["coeff"] = ms1["reg"], ms1["coeff"]
+        b = {"graph": "twoworld", "worlds": [b1, b2], "share": share}
+        ks = root_kinds(b)
+        n1 = len(root_kinds(b1))
+        i1 = [j for j in self._inv_idxs(ks[:n1], base=0)]
+        i2 = [n1 + j for j in self._inv_idxs(ks[n1:], base=0)]
+        hist = []
+        if mode in ("twin", "shape"):
+            # the same operation on both worlds, in both orders
+            ops1 = self._sample_ops(rng, alpha, ks, i1, 22, exclude=(("Imaging", "w_tilde"),))
+            for op in ops1:
+                o2 = op["obj"] + n1
+                if o2 >= len(ks) or ks[o2] != ks[op["obj"]]:
+                    hist.append(op)
+                    continue
+                pair = [op, {**op, "obj": o2}]
+                if rng.random() < 0.5:
+                    pair.reverse()
+                hist += pair
+        else:
+            ops = self._sample_ops(rng, alpha, ks, i1, 14) + self._sample_ops(rng, alpha, ks, i2, 14)
+            rng.shuffle(ops)
+            hist = ops
+        return {"tag": f"reuse_two_{mode}", "kind": "history", "build": b, "history": hist + hist[: len(hist) // 2]}
+
+    # ------------------------------------------------------------------ round 4: sizes around new constants (L1)
+    LARGE_MAX = {"struct": 150000, "vis": 300000, "dataset": 70000, "inv_rows": 70000, "inv_wt": 1100,
+                 "mesh": 2600, "kernel": 450, "rng": 70000}
+
+    def _proc_struct(self, rng, struct, n_un=None, frame=None):
+        """procedural structure build: exactly n_un unmasked pixels in a non-square frame, or an H x W frame with
+        H*W = frame pixels."""
+        p = {"seed": rng.randint(0, 10 ** 6)}
+        if frame is not None:
+            h, w = frame
+            p.update(h=h, w=w, margin=[0, 0], n_un=h * w - max(0, min(3, h * w - 1)), holes=0)
+        else:
+            h, w = frame_for(n_un, 1, 1, skew=rng.choice([2, 3, 5]))
+            p.update(h=h, w=w, margin=[1, 1], n_un=n_un, holes=rng.choice([0, 2]))
+        b = {"graph": "structure", "struct": struct, "proc": p, "scales": _scales(rng), "origin": _origin(rng),
+             "form": rng.choice(["slim", "native"]), "store_native": rng.random() < 0.5, "container": "ndarray"}
+        if struct == "Kernel2D":
+            b["normalize"] = rng.random() < 0.5
+            p["all_unmasked"] = True
+        if struct == "Grid2D":
+            b["sub"] = rng.choice([0, 1, 2])
+            p["uniform"] = rng.random() < 0.5
+        return b
+
+    def _proc_dataset(self, rng, n_un, inversion=False, psf_shape=(3, 3), sub=1, sub_pix=1, wt=False,
+                      mappers=None, valued=None, small_frame=None):
+        kh, kw = psf_shape
+        my, mx = max(1, kh // 2), max(1, kw // 2)
+        h, w = frame_for(n_un, my, mx, skew=rng.choice([2, 3, 5]))
+        p = {"seed": rng.randint(0, 10 ** 6), "h": h, "w": w, "n_un": n_un, "margin": [my, mx],
+             "holes": rng.choice([0, 2]), "psf_signed": rng.random() < 0.5}
+        b = {"graph": "inversion" if inversion else "dataset", "proc": p, "scales": _scales(rng),
+             "origin": _origin(rng), "psf_shape": [kh, kw], "sub": sub, "sub_pix": sub_pix,
+             "normalize_psf": rng.random() < 0.5, "use_mask_in_fit": rng.random() < 0.3,
+             "ds_store_native": rng.random() < 0.35}
+        if inversion:
+            b["mappers"] = mappers or [{"mesh": "rect", "shape": [3, rng.choice([2, 3])],
+                                        "reg": rng.choice(["constant", "zeroth"]), "coeff": q(_pos(rng, 1, 4))}]
+            b["w_tilde"] = wt
+            # (the non-negative solver iterates over active sets: not with thousands of mesh pixels)
+            b["positive_only"] = rng.random() < 0.3 and max(n_params_of(ms) for ms in b["mappers"]) <= 600
+            b["distort"] = [q(v) for v in rng.choice([(1, 0, 0, 1), (Fraction(3, 4), Fraction(1, 4), 0, 1)])]
+            p["extent"] = float(max(h * float(Fraction(b["scales"][0])), w * float(Fraction(b["scales"][1]))))
+            npix = n_params_of(b["mappers"][0])
+            if valued is None:
+                valued = rng.choice(["rec", "masked", "masked"])
+            if valued == "rec":
+                b["valued"] = {"values": "reconstruction", "pixel_mask": None}
+            elif valued == "masked":
+                pm = "".join("1" if rng.random() < 0.3 else "0" for _ in range(npix))
+                pm = ("1" if "1" not in pm else pm[0]) + pm[1:]
+                b["valued"] = {"values": {"n": npix, "zero_under_mask": True}, "pixel_mask": pm}
+        return b
+
+    SOLVE_WORDS = ("reconstruct", "log_det", "regularization_term", "data_subtracted", "noise_map", "errors")
+
+    def _large_history(self, rng, alpha, b, n_ops=14):
+        ks = root_kinds(b)
+        excl = set()
+        n_un = b["proc"].get("n_un", 0) if "proc" in b else 0
+        if n_un > 600:
+            excl.add(("Imaging", "w_tilde"))  # O(N^2) in pure Python
+        big_mesh = b["graph"] == "inversion" and max(n_params_of(ms) for ms in b["mappers"]) > 600
+        if b["graph"] == "inversion":
+            idxs = self._inv_idxs(ks)
+            if big_mesh:
+                # every fresh-object value of a quantity behind the dense solve costs one O(P^3) factorisation:
+                # keep the quantities in front of it, and exactly two behind it
+                idxs = [i for i in idxs if ks[i] != "FitInversion"]
+                excl |= {("Inversion", k) for k in alpha.reads("Inversion") if any(w in k for w in self.SOLVE_WORDS)}
+                excl.add(("Inversion", "source_quantity_dict_from"))
+        elif b["graph"] == "dataset":
+            idxs = [8, 9, 11, 5, 7]
+        else:
+            idxs = [len(ks) - 1]
+        ops = self._ops_of(rng, alpha, ks, idxs, exclude=excl)
+        core = [op for op in ops if op["op"] == "read" and ks[op["obj"]] == "Inversion" and op["key"] in self.INV_CORE]
+        rest = [op for op in ops if op not in core]
+        ops = core + rng.sample(rest, min(max(0, n_ops - len(core)), len(rest)))
+        rng.shuffle(ops)
+        if big_mesh:
+            inv = ks.index("Inversion")
+            ops.insert(rng.randint(0, len(ops)), {"op": "read", "obj": inv, "key": "reconstruction"})
+            ops.append({"op": "read", "obj": inv, "key": "mapped_reconstructed_data"})
+        hist = ops + ops
+        if b["graph"] in ("structure", "visibilities"):
+            kind = ks[-1]
+            top = len(ks) - 1
+            derivs = [h for h in alpha.derivs(kind)]
+            d = len(ks)
+            for how in rng.sample(derivs, min(3, len(derivs))):
+                ck = alpha.cached_reads(kind)
+                pre = rng.sample(alpha.reads(kind), 3) + ([rng.choice(ck)] if ck else [])
+                hist += [{"op": "read", "obj": top, "key": k} for k in pre]
+                hist.append({"op": "derive", "obj": top, "g": alpha.random_g(rng, kind, how)})
+                rk = alpha.derivs(kind)[how].get("result") or kind
+                keys = alpha.reads(rk)
+                # the keys read on the source before the derivation, on the derived object; and the source again
+                hist += [{"op": "read", "obj": d, "key": k} for k in pre if k in keys]
+                hist += [{"op": "read", "obj": d, "key": k} for k in rng.sample(keys, min(3, len(keys)))]
+                hist += [{"op": "read", "obj": top, "key": k} for k in pre[:2]]
+                d += 1
+            hist += ops[:6]
+        return hist
+
+    def generate_large(self, hints, rng):
+        """cases whose sizes straddle every new integer constant of the anchored source (DESIGN §13, L1): for each
+        hint c and each size dimension the histories of this property run over (unmasked pixels = rows of the
+        mapping matrix, frame pixels H*W, total sub-pixels, mesh pixels, kernel pixels, visibilities, simulated
+        image pixels) the sizes c+1, c, c + c//3 + 1, 2c+1, c-1, on non-square off-origin anisotropic frames with a
+        partial last row, noise-maps != 1, signed asymmetric kernels, both formalisms.  The builds are procedural
+        (the case stores the recipe); the cache machine is symbolic, so the model comparison is size-independent."""
+        alpha = Alphabet()
+        M = self.LARGE_MAX
+
+        def divisors(t):
+            best = (1, t)
+            for a in range(2, int(t ** 0.5) + 1):
+                if t % a == 0 and a != t // a:
+                    best = (a, t // a)
+            return best if rng.random() < 0.5 else (best[1], best[0])
+
+        def case(b, tag, n_ops=None):
+            size = max(b.get("proc", {}).get("n_un", 0), b.get("proc", {}).get("n", 0))
+            return {"tag": f"large_{tag}", "kind": "history", "build": b,
+                    "history": self._large_history(rng, alpha, b, n_ops or scale(14, size))}
+
+        def scale(n, t):
+            # fewer distinct quantities per history as the objects grow (every one costs a fresh build)
+            return n if t <= 5000 else max(6, n // 2) if t <= 20000 else max(4, n // 3)
+
+        def frame_of(t, c):
+            fr = divisors(t)
+            if min(fr) == 1 and t > 5000:  # a prime: no 1 x t frames of that length, the neighbour on the same side of c
+                fr = divisors(t + 1 if t > c else t - 1)
+            return fr
+
+        # cheapest families first inside each target size, so that a time cut leaves every dimension its c + 1 case
+        RANK = ("Visibilities", "rng", "dataset", "Array2D", "Grid2D", "VectorYX2D", "Mask2D", "Kernel2D", "kernel",
+                "inv_subpix", "inv_rows", "inv_wt", "inv_mesh")
+
+        def rank(cs):
+            tag = cs["tag"][len("large_"):]
+            return next((i for i, r in enumerate(RANK) if tag.startswith(r)), len(RANK))
+
+        def one_target(c, t):
+            # rows of the mapping matrix / unmasked pixels of an inversion (mapping formalism)
+            if t <= M["inv_rows"]:
+                yield case(self._proc_dataset(rng, t, inversion=True, psf_shape=rng.choice([(3, 3), (1, 3), (1, 1)]),
+                                              wt=False), f"inv_rows_{t}", n_ops=scale(18, t))
+            if t <= M["inv_wt"]:
+                yield case(self._proc_dataset(rng, t, inversion=True, psf_shape=(3, 3), wt=True), f"inv_wt_rows_{t}")
+            # total sub-pixels of the pixelization grid
+            if 4 <= t <= 4 * M["inv_rows"]:
+                yield case(self._proc_dataset(rng, -(-t // 4), inversion=True, sub_pix=2, sub=rng.choice([1, 2])),
+                           f"inv_subpix_{t}")
+            # mesh pixels (small image): rectangular and Delaunay, both formalisms
+            if 9 <= t <= M["mesh"]:
+                r_, c_ = divisors(t)
+                if min(r_, c_) < 3:
+                    r_ = max(3, int(t ** 0.5) - 1)
+                    c_ = -(-t // r_)
+                for mesh_spec, nm in (({"mesh": "rect", "shape": [r_, c_]}, "rect"),
+                                      ({"mesh": "delaunay", "n_points": t}, "delaunay")):
+                    ms = {**mesh_spec, "reg": "constant", "coeff": q(_pos(rng, 1, 4))}
+                    yield case(self._proc_dataset(rng, rng.randint(20, 40), inversion=True, mappers=[ms],
+                                                  wt=(t == c + 1 and nm == "rect") or t <= 600,
+                                                  valued="masked"),
+                               f"inv_mesh_{nm}_{t}", n_ops=16)
+            # kernel pixels
+            if 9 <= t <= M["kernel"]:
+                kh = max(3, int(t ** 0.5) // 2 * 2 + 1)
+                kw = max(3, (-(-t // kh)) // 2 * 2 + 1)
+                for (a_, b_) in {(kh, kw), (kh, max(1, kw - 2)), (kh, kw + 2)}:
+                    if a_ * b_ in range(t - 2 * kh, t + 2 * kh + 1):
+                        yield case(self._proc_dataset(rng, rng.randint(12, 30), inversion=rng.random() < 0.5,
+                                                      psf_shape=(a_, b_)), f"kernel_{a_}x{b_}")
+                yield case(self._proc_struct(rng, "Kernel2D", frame=(kh, kw)), f"Kernel2D_{kh}x{kw}")
+            # datasets / fits: unmasked pixels, sub-pixels
+            if t <= M["dataset"]:
+                yield case(self._proc_dataset(rng, t, psf_shape=rng.choice([(3, 3), (3, 1)]), sub=1), f"dataset_{t}")
+                yield case(self._proc_dataset(rng, -(-t // 4), sub=2), f"dataset_sub_{t}")
+            # structures: unmasked pixels and frame pixels
+            if t <= M["struct"]:
+                for struct in ("Array2D", "Grid2D", "VectorYX2D"):
+                    yield case(self._proc_struct(rng, struct, n_un=t), f"{struct}_{t}")
+                fr = frame_of(t, c)
+                for struct in ("Mask2D", "Array2D", "Grid2D"):
+                    yield case(self._proc_struct(rng, struct, frame=fr), f"{struct}_frame_{fr[0]}x{fr[1]}")
+            if t <= M["vis"]:
+                b = {"graph": "visibilities", "proc": {"seed": rng.randint(0, 10 ** 6), "n": t}}
+                yield case(b, f"Visibilities_{t}")
+            if 6 <= t <= M["rng"]:
+                h, w = divisors(t)
+                b = {"graph": "rng", "shape": [h, w], "scales": _scales(rng), "proc": {"seed": rng.randint(0, 10 ** 6)},
+                     "exposure_time": q(1000), "background_sky_level": q(1), "normalize_psf": True,
+                     "add_noise": True, "noise_in_map": True, "func": rng.choice(["simulator"] + list(self.SEEDED_FUNCS))}
+                hist = [{"op": "reseed", "j": 3}]
+                for sd in (0, 7, 2 ** 32 - 1):
+                    hist += [{"op": "simulate", "seed": sd}, {"op": "draw", "n": 3}, {"op": "simulate", "seed": sd}]
+                yield {"tag": f"large_rng_{t}", "kind": "rng", "build": b, "history": hist}
+
+        for c in sorted(set(int(x) for x in hints)):
+            if c < 8:
+                continue
+            # (just above first: a gate is usually `> c` or `>= c`; the expensive 2c + 1 late)
+            for t in (c + 1, c, c + c // 3 + 1, 2 * c + 1, c - 1):
+                if t < 2:
+                    continue
+                yield from sorted(one_target(c, t), key=rank)
 
     def _struct_case_build(self, rng, struct):
         if struct == "Visibilities":
@@ -1832,6 +2980,11 @@ class C11(PropertyCheck):
         keys, derivs, ctors = {}, {}, {}
         # the caller rewriting its own buffer: an edit of that buffer's contents, nothing else depends on it
         keys["Buffer.__caller_write__"] = {"cached": False, "cwrites": [[0, "caller_write"]]}
+        # the user assigning into a structure through its public __setitem__: an edit of that object's contents
+        # (the user also invalidates the documented cached properties of the object: `drops`)
+        for kind in t["kinds"]:
+            keys[f"{kind}.__setitem__"] = {"cached": False, "cwrites": [[0, "user_setitem"]],
+                                           "drops": sorted(f"{kind}.{n}" for n in _table_cached_names(kind))}
         for kind, spec in t["kinds"].items():
             for k, e in list(spec.get("reads", {}).items()) + list(spec.get("queries", {}).items()):
                 ent = {"cached": bool(e.get("cached", False))}
@@ -1871,11 +3024,25 @@ class C11(PropertyCheck):
             stage_at.append(len(hist))
             hist.append({"op": "construct", "kind": k, "root": i, "parents": ps})
         n_prefix = len(hist)
-        for st in case["history"]:
+        step_at = []
+        impl_steps = impl_obs.get("steps", [])
+        for i_st, st in enumerate(case["history"]):
             o = st["obj"]
             kind = kinds[o] if o < len(kinds) else "?"
+            step_at.append(len(hist))
             if st["op"] == "poke":
                 hist.append({"op": "read", "obj": o, "key": "Buffer.__caller_write__"})
+            elif st["op"] == "setitem":
+                applied = i_st < len(impl_steps) and impl_steps[i_st].get("applied")
+                hist.append({"op": "read", "obj": o, "key": f"{kind}.__setitem__" if applied else f"{kind}.__noop__"})
+                for j in (impl_steps[i_st].get("aliased", []) if applied else []):
+                    # numpy aliasing (views, by-reference constructors): the same user write, seen through object j
+                    kj = kinds[j] if j < len(kinds) else "?"
+                    hist.append({"op": "read", "obj": j, "key": "Buffer.__caller_write__" if kj == "Buffer"
+                                 else f"{kj}.__setitem__"})
+            elif st["op"] == "fault":
+                # an interrupted read / query: reports nothing, must change nothing
+                hist.append({"op": "read", "obj": o, "key": f"{kind}.__interrupted__"})
             elif st["op"] == "read":
                 hist.append({"op": "read", "obj": o, "key": f"{kind}.{st['key']}"})
             elif st["op"] == "query":
@@ -1884,7 +3051,7 @@ class C11(PropertyCheck):
                 hist.append({"op": "derive", "obj": o, "cls": deriv_class(kind, st["g"]), "g": st["g"]})
                 kinds.append(result_kind(kind, st["g"]) if kind in effects()["kinds"] else "?")
         return [{"op": "c11.cache_machine", "effects": self._table_for(kinds), "history": hist,
-                 "tag": {"n_prefix": n_prefix, "stage_at": stage_at}}]
+                 "tag": {"n_prefix": n_prefix, "stage_at": stage_at, "step_at": step_at}}]
 
     def model_obs(self, case, responses):
         r = responses[0]
@@ -1898,10 +3065,12 @@ class C11(PropertyCheck):
                 for i, j in enumerate(r["ok"]["tag"]["stage_at"]) if steps[j]["changed"] or steps[j]["vchanged"]]
         fresh = FreshEval(case["build"])
         out = []
-        for st, s in zip(case["history"], steps[n_roots:]):
+        step_at = r["ok"]["tag"].get("step_at") or list(range(n_roots, n_roots + len(case["history"])))
+        for st, j in zip(case["history"], step_at):
+            s = steps[j]
             o = {"may_change": sorted({f"obj{i}" for i in s["changed"]} | {f"obj{i}" for i, k in s["vchanged"]})}
             v = s["value"]
-            if st["op"] in ("derive", "poke"):
+            if st["op"] in ("derive", "poke", "setitem", "fault"):
                 o["value"] = None
             elif v is None:
                 o["value"] = "err:no-object"
@@ -1957,6 +3126,9 @@ class C11(PropertyCheck):
             return False, f"constructing {c['kind']} (stage {c['stage']}) modified {c['changed']}"
         for i, (st, s) in enumerate(zip(case["history"], obs["steps"])):
             what = st.get("key") or st.get("name") or st.get("g")
+            if st["op"] == "fault":
+                what = f"interrupted at internal call {st['k']} (last: {s.get('fired')}): " \
+                       f"{st['inner'].get('key') or st['inner'].get('name')}"
             if s["changed"]:
                 return False, f"step {i} ({st['op']} {what} on obj {st['obj']}) modified {s['changed'][:4]}"
             if st["op"] in ("read", "query"):
@@ -1984,16 +3156,20 @@ class C11(PropertyCheck):
         mv = case["build"].get("valued")
         if not mv or not mv.get("pixel_mask"):
             return None
+        if "mv_values" in case["build"].get("readonly", ()) or mv.get("len_delta"):
+            # the write of D9b cannot happen (read-only values raise, a wrong-length mask index raises)
+            return None
         ks = root_kinds(case["build"])
         mvi = len(ks) - 1
-        if not any(st["obj"] == mvi and (st.get("key") or st.get("name")) in self.D9B_OPS
+        if not any(st["obj"] == mvi and (st.get("key") or st.get("name") or st.get("inner", {}).get("key")
+                                         or st.get("inner", {}).get("name")) in self.D9B_OPS
                    for st in case["history"]):
             return None
         # the symptoms must be those of this defect: nothing wrong at construction, and the only buffers that
         # change belong to the holder of the values (the caller's buffer / the inversion caching the reconstruction)
         if not isinstance(obs, dict) or obs.get("ctor"):
             return None
-        holder = f"obj{mvi - 1}" if mv["values"] != "reconstruction" else f"obj{ks.index('Inversion')}"
+        holder = f"obj{mvi - 1}" if not mv_from_rec(mv) else f"obj{ks.index('Inversion')}"
         for st_obs in obs.get("steps", []):
             # (the valued mapper itself when its `values` is a view of the holder's array: two mappers)
             if any(t not in (holder, f"obj{mvi}") for t in st_obs.get("owners", [])):
@@ -2025,6 +3201,18 @@ class C11(PropertyCheck):
 
     def shrink(self, case):
         hist = case["history"]
+        if '"proc"' in json.dumps(case["build"]):
+            # procedurally generated (large) build: every candidate costs seconds — prefixes on a geometric ladder,
+            # then the last step behind each shorter prefix
+            n, seen = 1, set()
+            while n < len(hist):
+                seen.add(n)
+                yield {**case, "history": hist[:n]}
+                n = n + 1 if n < 4 else int(n * 1.5)
+            for n in sorted(seen):
+                if n + 1 < len(hist):
+                    yield {**case, "history": hist[:n] + [hist[-1]]}
+            return
         # shortest failing prefix first, then single non-derive steps (derive steps define later indexes)
         for n in range(1, len(hist)):
             yield {**case, "history": hist[:n]}
